@@ -19,6 +19,9 @@ database:
       written pin cite; the symbolic matcher is validated against the real `regex` engine on every path.
   (8) year / court contexts (E3): on  [pin] ' (' [court ' '] YYYY ')' [tail]  POST_FULL_CITATION_REGEX captures exactly
       the written pin cite, court and year and ends at the parenthesis;
+  (9) antecedent contexts (E3): the short-form and supra antecedent patterns, anchored at the end as
+      match_on_tokens runs them, capture exactly the written name (2..4 arbitrary characters of the documented
+      class) and an optional supra volume;
   (6) full-span start = extracted plaintiff; (7) the full span of a full case / law / journal citation covers
       its parenthetical and the closing parenthesis (E2 on add_post_citation / add_law_metadata /
       add_journal_metadata, with the "what follows the group inside the match" fact read off the pattern AST).
@@ -200,7 +203,7 @@ class HCtx(common.Harness):
         self.regex = regex
         name = params["pattern"]
         self.pat = "^(?:%s)" % getattr(RX, name)
-        self.matcher = symre.Matcher(self.pat, re.X)
+        self.matcher = symre.Matcher(self.pat, re.X, module=regex)
         self.real = regex.compile(self.pat, regex.X)
 
     def run(self):
@@ -217,7 +220,9 @@ class HCtx(common.Harness):
             eng.add(x >= 0, x <= 0x10FFFF)
             if T == ",":
                 # after a comma the text must not continue the pin cite: no digit, space or pin-cite label
-                dig = rex.table(r"\d", 0)
+                import regex
+
+                dig = rex.table(r"\d", 0, module=regex)
                 eng.add(z3.Not(z3.Or(*[z3.And(x >= a, x <= b) for a, b in dig])), x != 32, *[x != ord(ch) for ch in "&nf¶§*p"])
         s = symre.CStr([ord(c) for c in P] + digs + [ord(c) for c in T] + tail)
         self.s, self.P, self.nd, self.T = s, P, nd, T
@@ -265,7 +270,7 @@ class HCtxYear(common.Harness):
         import eyecite.regexes as RX
 
         self.pat = "^(?:%s)" % RX.POST_FULL_CITATION_REGEX
-        self.matcher = symre.Matcher(self.pat, re.X)
+        self.matcher = symre.Matcher(self.pat, re.X, module=regex)
         self.real = regex.compile(self.pat, regex.X)
 
     def run(self):
@@ -274,8 +279,10 @@ class HCtxYear(common.Harness):
         nc = YCOURTS[eng.choose([z3.Int("court") == k for k in range(len(YCOURTS))])]
         tail = YTAILS[eng.choose([z3.Int("tail") == k for k in range(len(YTAILS))])]
         br = eng.choose([z3.Int("bracket") == k for k in range(2)])
-        dig = rex.table(r"\d", 0)
-        spc = rex.table(r"\s", 0)
+        import regex
+
+        dig = rex.table(r"\d", 0, module=regex)
+        spc = rex.table(r"\s", 0, module=regex)
         chars, self.vars = [], []
 
         def digit(tag):
@@ -343,6 +350,100 @@ class HCtxYear(common.Harness):
         return fs
 
 
+# ---------------------------------------------------------------- (9) antecedent contexts (backward scans)
+ASEPS = [" ", ", ", " , "]
+APREFIX = ["", " ", "X "]
+
+
+class HCtxAnte(common.Harness):
+    """SHORT_CITE_ANTECEDENT_REGEX / SUPRA_ANTECEDENT_REGEX anchored at the end of the scanned text, as
+    match_on_tokens runs them, on  [one arbitrary character + ' '] Name [,] ' '  with a Name of 2..4 arbitrary
+    characters of the class the pattern documents: the antecedent captured is exactly the written name and the
+    match reaches from the name to the end (so the full span starts at the written antecedent)."""
+
+    def __init__(self, params):
+        super().__init__(params)
+        import regex
+
+        import eyecite.regexes as RX
+
+        self.name = params["pattern"]
+        self.pat = "(?:%s)$" % getattr(RX, self.name)
+        self.matcher = symre.Matcher(self.pat, re.X, module=regex)
+        self.real = regex.compile(self.pat, regex.X)
+
+    def cls(self, x, src):
+        import regex
+
+        rs = rex.table(src, 0, module=regex)
+        return z3.Or(*[z3.And(x >= a, x <= b) if a != b else x == a for a, b in rs])
+
+    def run(self):
+        eng = self.eng
+        pre = APREFIX[eng.choose([z3.Int("prefix") == k for k in range(len(APREFIX))])]
+        nn = 2 + eng.choose([z3.Int("namelen") == k for k in range(3)])
+        sep = ASEPS[eng.choose([z3.Int("sep") == k for k in range(len(ASEPS))])]
+        vol = 0
+        if self.name == "SUPRA_ANTECEDENT_REGEX":
+            vol = eng.choose([z3.Int("voldigits") == k for k in range(3)])
+        chars = []
+        for ch in pre:
+            if ch == "X":
+                x = z3.Int("x0")
+                eng.add(x >= 0, x <= 0x10FFFF, x != 10)
+                chars.append(x)
+            else:
+                chars.append(ord(ch))
+        n0 = len(chars)
+        for i in range(nn):
+            x = z3.Int(f"n{i}")
+            eng.add(x >= 0, x <= 0x10FFFF)
+            if self.name == "SHORT_CITE_ANTECEDENT_REGEX":
+                eng.add(self.cls(x, r"[A-Za-z]") if i == 0 else self.cls(x, r"[\w\-.]"))
+            else:
+                # a supra antecedent: word characters, '-' and '.'; not all digits (a number is read as a volume)
+                eng.add(self.cls(x, r"[\w\-.]"))
+                if i == 0:
+                    eng.add(z3.Not(self.cls(x, r"\d")))
+            chars.append(x)
+        self.want = (n0, n0 + nn)
+        chars += [ord(c) for c in sep]
+        self.wvol = None
+        if vol:
+            v0 = len(chars)
+            for i in range(vol):
+                d = z3.Int(f"v{i}")
+                eng.add(self.cls(d, r"\d"))
+                chars.append(d)
+            self.wvol = (v0, v0 + vol)
+            chars.append(32)
+        self.s = symre.CStr(chars)
+        self.cfg = (pre, nn, sep, vol)
+        return self.matcher.search(self.s)
+
+    def witness(self, m):
+        return {"context": self.s.concrete(m), "want": {"antecedent": list(self.want), "volume": list(self.wvol) if self.wvol else None, "end": len(self.s)}}
+
+    def describe(self, kind, out):
+        m = self.eng.path_model()
+        return self.witness(m) if m is not None else {}
+
+    def judge(self, kind, out):
+        if kind == "exc":
+            return [self.check("C01:actx:no_exception:" + type(out).__name__, False, self.witness)]
+        ok = out is not None and out.span("antecedent") == self.want and out.s == self.want[0] and out.e == len(self.s)
+        if ok and self.name == "SUPRA_ANTECEDENT_REGEX":
+            ok = out.span("volume") == (self.wvol or (-1, -1))
+        fs = [self.check("C01:actx:antecedent_captured_is_the_written_name", z3.BoolVal(bool(ok)), self.witness)]
+        m = self.eng.path_model()
+        agree = True
+        if m is not None:
+            r = self.real.search(self.s.concrete(m))
+            agree = (r is None) == (out is None) and (r is None or (r.span() == (out.s, out.e) and r.span("antecedent") == out.span("antecedent")))
+        fs.append(self.check("C01:actx:symbolic_matcher_agrees_with_regex_engine", z3.BoolVal(agree), self.witness))
+        return fs
+
+
 class HWire(common.Harness):
     def __init__(self, params):
         super().__init__(params)
@@ -382,7 +483,7 @@ class HWire(common.Harness):
 
 
 def make(params):
-    return {"ctx": HCtx, "yctx": HCtxYear, "wire": HWire}[params["part"]](params)
+    return {"ctx": HCtx, "yctx": HCtxYear, "actx": HCtxAnte, "wire": HWire}[params["part"]](params)
 
 
 def short_derivation():
@@ -414,7 +515,7 @@ def check(rep):
     rnd = random.Random(common.seed())
     idx = list(range(len(exts)))
     sample = idx  # every extractor in both tiers: (1) is a statement per reporter string across extractors
-    rep.bounds.append(f"(1)(2): {len(sample)} of {len(exts)} citation extractors (all); volumes [1-9]\\d* and pages \\d+ of any length; neighbours any non-alphanumeric character or the text ends; (5): contexts [,][ ][at ]D{{1,2}}T plus <= 1 arbitrary character; (8): year contexts [, D{{1,2}}| at D] (|[ [court of 2..3 arbitrary characters] YYYY )|] [one arbitrary character]")
+    rep.bounds.append(f"(1)(2): {len(sample)} of {len(exts)} citation extractors (all); volumes [1-9]\\d* and pages \\d+ of any length; neighbours any non-alphanumeric character or the text ends; (5): contexts [,][ ][at ]D{{1,2}}T plus <= 1 arbitrary character; (8): year contexts [, D{{1,2}}| at D] (|[ [court of 2..3 arbitrary characters] YYYY )|] [one arbitrary character]; (9): antecedent contexts [one arbitrary character + blank] Name{{2..4}} [,] blank [volume D{{1,2}} blank]")
     rep.outside += ["captures on longer trailing contexts, party names, court lookup, parentheticals, full-span ends", "'exactly one citation per written citation' under overlapping patterns", "reporter strings whose database entry has its own 'regexes' (custom templates with restricted volumes/pages) are not in (1)/(2)"]
     res, err = common.pmap(job, sample, timeout=3000, chunk=8)
     if err:
@@ -511,6 +612,14 @@ def check(rep):
     n_ok = sum(v for k, v in agg["verdicts"].items() if k.endswith(":valid"))
     rep.oblige(n_ok)
     rep.oblige(n_ob - n_ok, ok=False)
+    for name in ("SHORT_CITE_ANTECEDENT_REGEX", "SUPRA_ANTECEDENT_REGEX"):
+        agg = common.explore_split("vf.harness.c01", {"part": "actx", "pattern": name}, depth=4)
+        rep.merge_explore("contexts_antecedent_" + name, agg)
+        findings += [("actx:" + name, f) for f in agg["findings"]]
+        n_ob = sum(agg["verdicts"].values())
+        n_ok = sum(v for k, v in agg["verdicts"].items() if k.endswith(":valid"))
+        rep.oblige(n_ok)
+        rep.oblige(n_ob - n_ok, ok=False)
     agg = common.explore_split("vf.harness.c01", {"part": "wire"}, depth=3, procs=1)
     rep.merge_explore("class_wiring", agg)
     findings += [("wire", f) for f in agg["findings"]]
@@ -536,6 +645,14 @@ def check(rep):
         rep.replays += 1
         if name == "wire":
             rep.violation(f"_extract_full_citation with edition sources {w}: wrong class or lost groups", {"kind": "wire", "witness": w})
+            continue
+        if name.startswith("actx:") and not f["clause"].endswith("agrees_with_regex_engine"):
+            got = actx_real(name[5:], w["context"])
+            if got != w["want"]:
+                rep.violation(f"{name[5:]} (anchored at the end, as match_on_tokens runs it) on {w['context']!r} captures {got}, written {w['want']}", {"kind": "actx", "pattern": name[5:], "context": w["context"], "want": w["want"]})
+            else:
+                rep.spurious += 1
+                rep.inconc(f"antecedent-context model {w['context']!r} did not reproduce")
             continue
         if name == "yctx" and not f["clause"].endswith("agrees_with_regex_engine"):
             got = yctx_real(w["context"])
@@ -571,6 +688,18 @@ def check(rep):
     )
 
 
+def actx_real(name, text):
+    import regex
+
+    import eyecite.regexes as RX
+
+    r = regex.search("(?:%s)$" % getattr(RX, name), text, flags=regex.X)
+    if r is None:
+        return None
+    sp_ = lambda g: None if r.span(g) == (-1, -1) else list(r.span(g))
+    return {"antecedent": sp_("antecedent") if r.start() == r.start("antecedent") else ["match starts at", r.start()], "volume": sp_("volume") if "volume" in r.groupdict() else None, "end": r.end()}
+
+
 def yctx_real(text):
     """what the real engine captures on a year-parenthesis context, in the shape of HCtxYear's `want`."""
     import regex
@@ -594,6 +723,10 @@ def replay_file(path):
         ok = re.compile(r["regex"], r["flags"]).search(r["text"]) is not None
         print(ok)
         return 0 if ok else 1
+    if r["kind"] == "actx":
+        got = actx_real(r["pattern"], r["context"])
+        print(got, r["want"])
+        return 0 if got == r["want"] else 1
     if r["kind"] == "yctx":
         got = yctx_real(r["context"])
         print(got, r["want"])
